@@ -112,6 +112,8 @@ class Envelope:
         self.verify = verify
 
         header_buf = io.BytesIO(self.fh.read(ENVELOPE_BLOCK_SIZE))
+        # The header block exactly as stored: this is what is authenticated, see decrypt()
+        self._header_block = header_buf.getvalue()
         self.header = c_envelope.EnvelopeFileHeader(header_buf)
 
         if self.header.magic != FILE_HEADER_MAGIC:
@@ -175,8 +177,10 @@ class Envelope:
             raise NotImplementedError(f"Unsupported cipher: {self.cipher_name}")
 
         if is_aead:
-            # The file header is included in the AAD, as well as any optional variable data
-            cipher.update(_pack_envelope_header(self))
+            # The file header is included in the AAD, as well as any optional variable data.
+            # Use the stored bytes, not a re-serialization: repacking drops bytes the parser ignores
+            # (reserved/padding bytes) and is not byte-exact for every value (e.g. signalling NaN floats)
+            cipher.update(self._header_block)
             if aad:
                 cipher.update(aad)
 
